@@ -162,7 +162,13 @@ def sampler_digest(sc):
     """A seeded Rejection / SMC run on a model with real random priors and simulator; digest of everything returned."""
     import elfi
     m = elfi.ElfiModel(name="c02s")
-    elfi.Prior("uniform", 0, 2, model=m, name="t1")
+    if sc.get("latent"):
+        # a latent stochastic ancestor of a parameter (a hyper-prior that is not itself a parameter): in SMC rounds > 0
+        # the parameters are given, the ancestor is not needed and must not draw from the batch generator
+        elfi.RandomVariable("uniform", 0, 1, model=m, name="h")
+        elfi.Prior("uniform", m["h"], 2, model=m, name="t1")
+    else:
+        elfi.Prior("uniform", 0, 2, model=m, name="t1")
     elfi.Prior("normal", m["t1"], 1, model=m, name="t2")
     elfi.Simulator(RecSim("y"), m["t1"], m["t2"], model=m, name="y", observed=np.array([1.0]))
     elfi.Summary(DetOp("s"), m["y"], model=m, name="s")
@@ -211,6 +217,18 @@ def record_sampler(sc):
         sc["second_call"] = True
         one("second-sample-call-on-the-same-sampler", [])
         sc["second_call"] = False
+    if sc.get("mp"):
+        import elfi.client
+        old = elfi.client._client
+        elfi.client.set_client("multiprocessing", num_processes=2)
+        try:
+            one("multiprocessing-client", [])
+        finally:
+            try:
+                elfi.client.get_client().reset()
+            except Exception:
+                pass
+            elfi.client.set_client(old)
     return dict(bi=0, runs=runs, net_keys=[[97]], net_edges=[], need=[], all_recorded=False, stream=[[0, 1]], state_of=[])
 
 
@@ -340,7 +358,8 @@ def scenarios(ctx):
         obj = rnd.choice([dict(n_sim=12), dict(quantile=0.5), dict(threshold=1.5)]) if kind == "rejection" else \
             rnd.choice([dict(thresholds=[2.0, 1.0]), dict(quantiles=[0.5, 0.5])])
         out.append(dict(kind=kind, seed=(rnd.randint(0, 2 ** 31 - 1) if i > 1 else 0), bs=rnd.choice([1, 3]), n=rnd.choice([2, 4]), objective=obj,
-                        histories=[rnd.sample(PERTURBATIONS, 2) for _k in range(2)], hseed=rnd.randint(0, 10 ** 6)))
+                        histories=[rnd.sample(PERTURBATIONS, 2) for _k in range(2)], hseed=rnd.randint(0, 10 ** 6),
+                        latent=(i % 4 in (1, 2)), mp=(i % 4 in (1, 3))))
     return out
 
 
@@ -403,10 +422,18 @@ def run(ctx):
     ctx.tlc("MC_TopoSort", "MC_TopoSort_F3", cfg_text=mc_cfg("KeysPrefix", "E0", ["OrderIndependentOfPrivateNames"]), expect_ok=False, timeout=600)
     scs = scenarios(ctx)
     traces = check_scenarios(ctx, scs)
+    # "regardless of what was computed earlier" for a sampler OBJECT: advanced by hand under another objective and abandoned with
+    # batches outstanding on a lazy client, then asked to sample() - the seeded result is that of a fresh sampler (driver and
+    # trace spec shared with C04)
+    from harness.props import c04
+    c04.check_abandoned(ctx)
     for i in (1, len(scs) // 3):
         ctx.sample(dict(key={k: scs[i][k] for k in ("g", "seed", "bi", "bs", "outs", "histories")},
                         runs=[dict(label=r["label"], digest=r["digest"], draws=r["draws"][:3]) for r in traces[i]["runs"][:4]]))
 
 
 def replay(ctx, scenario):
+    if scenario.get("family") == "abandoned":
+        from harness.props import c04
+        return c04.check_abandoned(ctx, [scenario])
     check_scenarios(ctx, [scenario])
